@@ -114,13 +114,68 @@ func SitesOf(fns []*ssa.Function, target *types.Func) []Site {
 }
 
 // withAnon returns fn and all functions nested in it.
+// withAnon: fn, its function literals, and — because a literal may have been turned into a named
+// function or method by a refactoring — the functions that do not exist on the reference tree which fn
+// uses as a value (callback, bound method) or starts with `go`.
 func withAnon(fn *ssa.Function) []*ssa.Function {
+	return withAnonD(fn, 0, map[*ssa.Function]bool{})
+}
+
+func withAnonD(fn *ssa.Function, depth int, seen map[*ssa.Function]bool) []*ssa.Function {
+	if seen[fn] {
+		return nil
+	}
+	seen[fn] = true
 	out := []*ssa.Function{fn}
 	for _, a := range fn.AnonFuncs {
-		out = append(out, withAnon(a)...)
+		out = append(out, withAnonD(a, depth, seen)...)
+	}
+	if depth >= 2 || len(NewFuncKeys) == 0 {
+		return out
+	}
+	add := func(f *ssa.Function) {
+		if f == nil {
+			return
+		}
+		// bound-method wrapper: the method itself
+		if f.Synthetic != "" && strings.HasPrefix(f.Synthetic, "bound method wrapper") {
+			if m, ok := f.Object().(*types.Func); ok && fn.Prog != nil {
+				f = fn.Prog.FuncValue(m)
+			}
+		}
+		if f == nil || !inHelm(f) || len(f.Blocks) == 0 || !isNewFunc(f) {
+			return
+		}
+		out = append(out, withAnonD(f, depth+1, seen)...)
+	}
+	for _, b := range fn.Blocks {
+		for _, in := range b.Instrs {
+			switch x := in.(type) {
+			case *ssa.MakeClosure:
+				if f, ok := x.Fn.(*ssa.Function); ok && f.Parent() == nil {
+					add(f)
+				}
+			case *ssa.Go:
+				if f := x.Call.StaticCallee(); f != nil && f.Parent() == nil {
+					add(f)
+				}
+			case ssa.CallInstruction:
+				for _, a := range x.Common().Args {
+					if f, ok := a.(*ssa.Function); ok {
+						add(f)
+					}
+				}
+			}
+		}
 	}
 	return out
 }
+
+// NewFuncKeys: display names (FuncName) of helm functions that do not exist on the reference tree
+// (and are not renames of reference functions); filled by Load.
+var NewFuncKeys = map[string]bool{}
+
+func isNewFunc(f *ssa.Function) bool { return NewFuncKeys[FuncName(f)] }
 
 // ---- constants -------------------------------------------------------------------------------
 
